@@ -8,10 +8,10 @@ pid=$(python3 -c "import json,sys; print(json.load(open('$d/meta.json'))['proper
 props="${*:-$pid}"
 cd "$w" || exit 3
 git checkout -q -- jsonpath_rfc9535
-/venv/bin/python "$d/demo.py" >/dev/null 2>&1; echo "demo exit on original: $?"
+PYTHONPATH="$w" /venv/bin/python "$d/demo.py" >/dev/null 2>&1; echo "demo exit on original: $?"
 git apply "$d/patch.diff" || { echo "patch does not apply in worktree"; exit 3; }
 echo "tests with change: $(/venv/bin/python -m pytest -q -p no:cacheprovider --continue-on-collection-errors 2>&1 | tail -1)"
-/venv/bin/python "$d/demo.py" >/dev/null 2>&1; echo "demo exit with change: $?"
+PYTHONPATH="$w" /venv/bin/python "$d/demo.py" >/dev/null 2>&1; echo "demo exit with change: $?"
 git checkout -q -- jsonpath_rfc9535
 cd /repo || exit 3
 git diff --quiet || { echo "repo dirty"; exit 3; }
